@@ -8,7 +8,8 @@
     exactly the declared number of arguments, predicates / operands are expressions, and an operand in a Target / SuperName /
     SimpleName position of an operator is not the constant Zero: the byte 00 in such a position IS the NullName (spelled
     [ANull] in the AST, dropped from the namespace by [ns] and by the view) - [AConst Zero] there would be a second spelling
-    of the same bytes that [ns] counts as an argument. *)
+    of the same bytes that [ns] counts as an argument.  Conversely [ANull] is not an expression: it may only stand in such a
+    position of an operator (anywhere else the byte 00 is the constant Zero, spelled [AConst Zero]). *)
 From Coq Require Import NArith List Bool.
 From FF Require Import Lib.Word Gen.Consts_device_acpi_aml Aml.Stream Aml.Lex Aml.Tree Aml.Parser Aml.Grammar Aml.View.
 Import ListNotations.
@@ -91,7 +92,7 @@ Definition is_const_op (op : N) : bool :=
 
 Definition is_expr (a : ast) : bool :=
   match a with
-  | AConst _ _ | AData _ _ | AStr _ | ABuffer _ _ _ | APackage _ _ _ | AOp _ _ | ANull | ARef _ | ACall _ _ => true
+  | AConst _ _ | AData _ _ | AStr _ | ABuffer _ _ _ | APackage _ _ _ | AOp _ _ | ARef _ | ACall _ _ => true
   | _ => false
   end.
 
@@ -102,6 +103,13 @@ Variable ms : methods.
 Fixpoint wf_ast (scope : path) (a : ast) : bool :=
   let all := fix all (l : list ast) (sc : path) : bool := match l with [] => true | x :: r => wf_ast sc x && all r sc end in
   let allexpr := fix allexpr (l : list ast) : bool := match l with [] => true | x :: r => is_expr x && wf_ast scope x && allexpr r end in
+  (* the operands of an operator, position by position: [ANull] (the NullName) only where the opcode takes a Target / SuperName /
+     SimpleName, everywhere else an expression *)
+  let allargs := fix allargs (tys : list N) (l : list ast) : bool :=
+                   match l with
+                   | [] => true
+                   | x :: r => (if is_null x then is_target_ty (hd 0 tys) else is_expr x && wf_ast scope x) && allargs (tl tys) r
+                   end in
   let sumlen := fix sumlen (l : list ast) : N := match l with [] => 0 | x :: r => lenN (encode x) + sumlen r end in
   match a with
   | AConst op v => is_const_op op && (v <? N.shiftl 1 (N.of_nat (const_bytes op) * 8))
@@ -109,7 +117,7 @@ Fixpoint wf_ast (scope : path) (a : ast) : bool :=
   | AStr b => ascii_ok b
   | ABuffer k size bytes => is_expr size && wf_ast scope size && bytes_ok bytes && k_ok k (lenN (encode size) + lenN bytes)
   | APackage k n elems => (n <? 256) && allexpr elems && k_ok k (1 + sumlen elems)
-  | AOp op args => match op_arity op with Some n => (n =? lenN args) | None => false end && targets_ok (op_argtypes op) args && allexpr args
+  | AOp op args => match op_arity op with Some n => (n =? lenN args) | None => false end && targets_ok (op_argtypes op) args && allargs (op_argtypes op) args
   | ANull => true
   | ARef nm => name_ok nm
   | ACall nm args =>
